@@ -3,6 +3,7 @@ package props
 import (
 	"encoding/json"
 	"fmt"
+	"regexp"
 	"strings"
 
 	"github.com/compose-spec/compose-go/v2/loader"
@@ -38,6 +39,8 @@ var c20canaries = []string{
 	"- CANARYdash 0008",
 	"CANARY0009" + strings.Repeat("z", 190),
 }
+
+var c20plain = regexp.MustCompile(`^[A-Za-z0-9]+$`)
 
 type c20obj struct {
 	name   string
@@ -115,6 +118,24 @@ func (m c20model) scn() *Scn {
 		files["compose.yaml"] = "include:\n  - ./res.yaml\nservices:\n" + svc.String()
 		files["res.yaml"] = resources
 		s.Main = []string{"compose.yaml"}
+	case "include-own-env":
+		// the included project lives in its own directory and brings the values in its own .env
+		// (values the dotenv grammar needs no quoting for; the others stay in the caller's environment)
+		files["compose.yaml"] = "include:\n  - ./inc/res.yaml\nservices:\n" + svc.String()
+		files["inc/res.yaml"] = resources
+		dotenv := ""
+		for _, o := range append(append([]c20obj{}, m.secrets...), m.configs...) {
+			if o.kind == "file" {
+				delete(files, o.name+".txt")
+				files["inc/"+o.name+".txt"] = "file content of " + o.name
+			}
+			if o.kind == "environment" && c20plain.MatchString(o.canary) {
+				dotenv += o.envVar + "=" + o.canary + "\n"
+				delete(env, o.envVar)
+			}
+		}
+		files["inc/.env"] = dotenv + "UNRELATED=1\n"
+		s.Main = []string{"compose.yaml"}
 	}
 	return s
 }
@@ -162,7 +183,7 @@ func c20models(quick bool) []c20model {
 					continue
 				}
 				for ref := 0; ref < 3; ref++ {
-					for _, del := range []string{"main", "override", "include"} {
+					for _, del := range []string{"main", "override", "include", "include-own-env"} {
 						if quick && ns == 3 && (ref != 0 || del != "main") {
 							continue
 						}
@@ -418,7 +439,17 @@ func (c20) Run(c *core.Ctx) {
 			q, e = p.WithServicesTransform(func(_ string, s types.ServiceConfig) (types.ServiceConfig, error) { return s, nil })
 			add("WithServicesTransform", q, e)
 			if y0 != "" {
-				rs := &Scn{Files: map[string]string{"__r.yaml": y0}, Main: []string{"__r.yaml"}, Env: s.Env, Opts: []func(*loader.Options){}}
+				// the rendering is reloaded with every variable the original load saw (the included project's .env counted)
+				fullEnv := map[string]string{}
+				for k, v := range s.Env {
+					fullEnv[k] = v
+				}
+				for _, o := range append(append([]c20obj{}, m.secrets...), m.configs...) {
+					if o.kind == "environment" {
+						fullEnv[o.envVar] = o.canary
+					}
+				}
+				rs := &Scn{Files: map[string]string{"__r.yaml": y0}, Main: []string{"__r.yaml"}, Env: fullEnv, Opts: []func(*loader.Options){}}
 				rs.MaterialiseAt(root)
 				if rp, err := rs.LoadAt(root); err == nil {
 					projs = append(projs, proj{"reloaded", rp})
